@@ -91,6 +91,7 @@ def r1(ctx) -> None:
            "returns (merged labels, combined matrix)")
     cdm = ctx.fn(MAT, "MatrixProvider.calculate_dataset_matrix")
     cs = [c for c in lib.calls(cdm) if norm(c.func).endswith("combine_megacomplex_matrices")]
+    ctx.sites('C06-R1', "sites iterated at rules/c06.py:94 (cs)", len(cs), 1)
     for c in cs:
         st = lib.stmt_of(c)
         ok = [norm(a) for a in c.args] == ["matrix", "this_matrix", "clp_labels", "this_clp_labels"] and isinstance(st, ast.Assign) and \
